@@ -35,6 +35,38 @@ def closure_cells():
     return [("field", "|x| *x > 6"), ("root", "|x| *x > 6"), ("field", "|x| x > 6"), ("root", "|x| x > 6")]
 
 
+def parser_half(res):
+    """The theorems of Props/C11p.v are about Model/Parser.v: (1) its tie to the real parser is the front-end correspondence;
+    (2) the statement itself is asked of the real parser (tools/posuniform.py): every root-accepted pattern wrapped in every
+    context that holds a pattern must be accepted as the same tree up to ids and positions.  Returns the number of failing inputs."""
+    import parsestage
+    import posuniform
+    name_u = "direct:a pattern accepted at the root is accepted, as the same tree, in every position (real parser, in-process)"
+    res.obligations.append(name_u)
+    acc, npats, njobs, by_ctx, fails = posuniform.run(res, res.tier, res.seed)
+    res.streams["parser-positions"] = {"root_patterns": npats, "accepted_at_root": acc, "wrapped_invocations": njobs,
+                                        "contexts": len(posuniform.CONTEXTS), "failures": len(fails),
+                                        "by_context": {k: v for k, v in by_ctx.items() if v["failures"]} or "none failing"}
+    for f in fails[:3]:
+        res.violation("failing-input", "pattern `%s` is %s: position `%s`, invocation `%s`" % (f["pattern"], f["why"], f["context"], f["invocation"]),
+                      {"posuniform": True, "pattern": f["pattern"], "context": f["context"], "invocation": f["invocation"]})
+    if not fails:
+        res.discharged.append(name_u)
+    name_f = "correspondence:front-end(real parser == Model/Parser.v: outcome, error position, tree)"
+    res.obligations.append(name_f)
+    precs = parsestage.run_stage(res, res.tier, res.seed)
+    pdis = [(r, parsestage.agree(r, with_expansion=False)) for r in precs if parsestage.agree(r, with_expansion=False)]
+    res.streams["front-end"] = {"cases": len(precs), "accepted": sum(1 for r in precs if r.real_status == "ok"), "disagreements": len(pdis)}
+    if pdis and not fails:
+        r, why = pdis[0]
+        res.violation("no-failing-input-found", "correspondence front-end no longer checks: the real parser and the model differ on %d of %d token "
+                      "streams (the theorems of Props/C11p.v are about the model)" % (len(pdis), len(precs)),
+                      {"first_disagreement": {"invocation": r.text, "difference": why}})
+    if not pdis:
+        res.discharged.append(name_f)
+    return len(fails)
+
+
 def run(res):
     res.trusted += ["Coq 8.16.1 kernel (coqc)", "extraction to OCaml (ExtrOcamlBasic only), ocaml/*.ml",
                     "Model/Sem.v (model of rustc's semantics for the templates) and Model/Modes.v (which uses rustc accepts in which "
@@ -44,9 +76,14 @@ def run(res):
                         "validated against rustc; deeper chains rest on the mode abstraction"]
     vlib.build_coq()
     ths, rep = vlib.check_props("C11")
+    # parser half: the pattern parser is the same function with the same answer in every position (Props/C11p.v)
+    ths2, rep2 = vlib.check_props("C11p")
+    ths = ths + ths2
+    rep = {"closed_under_global_context": rep["closed_under_global_context"] + rep2["closed_under_global_context"], "axioms": rep["axioms"] + rep2["axioms"]}
     res.obligations += ths
     res.discharged += ths
     res.coverage["print_assumptions"] = rep
+    parser_half_bad = parser_half(res)
     kf = {f["id"] for f in vlib.load_known_findings()["findings"]}
 
     def compute():
@@ -125,6 +162,7 @@ def run(res):
                              "outcomes": {k: sum(1 for r in results if r[1].split(":")[0] == k) for k in ("pass", "fail", "reject", "crash")}}
     if not failing:
         res.discharged.append(name)
+    failing += parser_half_bad
     res.coverage.update({
         "evaluations": len(results), "distinct_nontrivial": sum(1 for r in results if r[0][2] != matrix.REFERENCE),
         "rule": "every pattern form (by target type: integers, strings, Option, tuples incl. non-Copy parts, Vec, map, struct, enum) in every "
@@ -138,6 +176,9 @@ def run(res):
 
 def replay(res, path):
     v = json.load(open(path))
+    if v.get("posuniform"):
+        import posuniform
+        return posuniform.replay(v)
     if "program" not in v:
         print("no program in replay file")
         return 1
